@@ -367,6 +367,70 @@ for _ in range(60):
         evs = ([("warn", [], [])] if wl else []) + par.ev
         add("SlicedMemoryIO_write %s %s" % (args, L(d)), "(" + ",".join([show(r)] + [show(x) for x in st(v)] + [EV(evs)]) + ")")
 
+# ---- fifth round: structured types (allocate: dicts of dicts, defaultdicts, typed constraint records, Machine as env) ----
+from rig.place_and_route.allocate.greedy import allocate as _allocate
+from rig.place_and_route.machine import Machine as _Machine
+from rig.place_and_route.constraints import (ReserveResourceConstraint as _RRC, AlignResourceConstraint as _ARC,
+                                             LocationConstraint as _LC)
+def LN(v): return str(v)                                    # a key (Nat)
+def Lsl(a, b): return "(%s, %s)" % (L(a), L(b))
+def Lres(d): return "[" + ", ".join("(%s, %s)" % (LN(k), L(v)) for k, v in d.items()) + "]"
+for _ in range(150):
+    w, h = rng.randint(1, 3), rng.randint(1, 2)
+    nres = rng.randint(1, 3)
+    chip_res = dict((r, rng.randint(0, 24)) for r in range(nres))
+    exc_chips = {}
+    for _e in range(rng.randint(0, 2)):
+        xy = (rng.randrange(w), rng.randrange(h))
+        exc_chips[xy] = dict((r, rng.randint(0, 24)) for r in range(nres) if rng.random() < 0.9)
+    dead = set((rng.randrange(w), rng.randrange(h)) for _d in range(rng.choice([0, 0, 0, 1])))
+    m = _Machine(w, h, chip_resources=dict(chip_res), chip_resource_exceptions=dict(exc_chips), dead_chips=set(dead))
+    nv = rng.randint(0, 5)
+    vr = {}
+    for v in range(nv):
+        rs = list(range(nres + (rng.random() < 0.05)))
+        rng.shuffle(rs)
+        vr[v] = dict((r, rng.choice([0, 0, 1, 2, 3, 5, 8])) for r in rs if rng.random() < 0.85)
+    pl = {}
+    order = list(range(nv)); rng.shuffle(order)
+    for v in order:
+        pl[v] = (rng.randrange(w + (rng.random() < 0.03)), rng.randrange(h))
+    if rng.random() < 0.05 and nv:
+        vr.pop(rng.randrange(nv), None)
+    cs, lcs = [], []
+    for _c in range(rng.randint(0, 5)):
+        k = rng.random()
+        r = rng.randrange(nres)
+        if k < 0.55:
+            a = rng.randint(-1, 12); b = a + rng.choice([0, 1, 2, 3, -1, 6])
+            loc = None if rng.random() < 0.5 else (rng.randrange(w), rng.randrange(h))
+            cs.append(_RRC(r, slice(a, b), loc))
+            lcs.append("(allocate_constraints_elem.ReserveResourceConstraint %s %s %s)" % (
+                LN(r), Lsl(a, b), "none" if loc is None else "(some %s)" % L(loc)))
+        elif k < 0.85:
+            a = rng.choice([1, 2, 3, 4, 8])
+            cs.append(_ARC(r, a)); lcs.append("(allocate_constraints_elem.AlignResourceConstraint %s %s)" % (LN(r), L(a)))
+        else:
+            cs.append(_LC(0, (0, 0))); lcs.append("allocate_constraints_elem.other")
+    table = []
+    for x in range(w):
+        for y in range(h):
+            if (x, y) in m:
+                table.append("(%s, %s)" % (L((x, y)), Lres(m[(x, y)])))
+    getitem = ("(fun (xy : Int × Int) => match ([%s] : List ((Int × Int) × List (Nat × Int))).lookup xy with "
+               "| some r => Except.ok r | none => Except.error \"IndexError\")" % ", ".join(table))
+    def ha():
+        out = _allocate(vr, [], m, cs, pl)
+        return "[" + ",".join("(%s,[%s])" % (v, ",".join("(%s,some(%d,%d))" % (r, s.start, s.stop) for r, s in va.items()))
+                              for v, va in out.items()) + "]"
+    try:
+        want = "Except.ok " + ha()
+    except Exception as e:
+        want = 'Except.error "%s"' % type(e).__name__
+    add("allocate [%s] %s %s [%s] [%s] 64" % (
+        ", ".join("(%s, %s)" % (LN(v), Lres(rs)) for v, rs in vr.items()), Lres(chip_res), getitem, ", ".join(lcs),
+        ", ".join("(%s, %s)" % (LN(v), L(xy)) for v, xy in pl.items())), want)
+
 cases = [c for c in cases if c[1] != ""]
 src = "import RigModel.Gen.PyFun\nimport RigModel.Props.C16Gen\nimport RigModel.Props.C08Gen\nopen Rig.Gen Rig.Gen.PyFun\n" + "".join("#eval %s\n" % c[0] for c in cases)
 HERE = os.path.dirname(os.path.dirname(os.path.abspath(__file__)))
